@@ -544,6 +544,8 @@ def run(prog: Program, col: Collector, tier: str, refs: Optional[Refs] = None, c
     # ---------------------------------------------------------------- R18.10
     col.rule("R18.10", "the printed source renders a tuple node as a tuple for every arity (trailing comma)", floor=1)
     _printed_tuple(prog, col, refs)
+    from . import shapes
+    shapes.r_raw_getitem_indexes_in_place(prog, col, refs, cat, "R18.15")
     return col
 
 
